@@ -291,7 +291,7 @@ ObsVerdict(e) ==
    time |-> ObsTimeOK(e, fr),
    nreq |-> Len(reqs)]
 
-KnownAfter(k) == IF k = -1 \/ known = -1 THEN k ELSE Max(known, k)
+LatestRecorded(k) == IF k = -1 \/ known = -1 THEN k ELSE Max(known, k)
 
 OEnd == /\ IsEv("end")
         /\ UNCHANGED <<pc, cyc, shipped, cur, now, enforce, reqs, maxRoot, stale, walk, reord, nread, last, chain, hist, tid>>
@@ -301,7 +301,7 @@ OEnd == /\ IsEv("end")
            /\ res' = e.res
            \* "a time the client previously recorded": the latest of all of them - a client that records an
            \* earlier time (and so forgets the later one) must still be held to the later one
-           /\ IF StoreKnown(e.store) THEN store' = JStore(e.store) /\ known' = KnownAfter(e.store.known)
+           /\ IF StoreKnown(e.store) THEN store' = JStore(e.store) /\ known' = LatestRecorded(e.store.known)
                                       ELSE UNCHANGED <<store, known>>
            /\ IF e.res = "ok"
               THEN /\ root' = fr
@@ -326,7 +326,7 @@ ORead == /\ IsEv("read")
                       /\ e.res = "SystemTimeSteppedBackward" => enforce /\ back
                       /\ enforce /\ ~back /\ Len(e.samples) >= 1 /\ ob.expRole # "none" =>
                            (e.samples[1] > ob.exp <=> e.res \in TimeWords \ {"SystemTimeSteppedBackward"})
-            IN /\ known' = KnownAfter(e.store.known)
+            IN /\ known' = LatestRecorded(e.store.known)
                /\ PrintT(<<"VERDICT", ToJson([id |-> tid, l |-> l, mode |-> "obs", res |-> e.res,
                                               read |-> TRUE, time |-> ok])>>)
          /\ UNCHANGED <<pc, cyc, shipped, root, cur, store, now, enforce, reqs, res, succ, maxRoot, stale, walk, reord, nread, last, chain, hist, tid, ob>>
